@@ -94,7 +94,7 @@ def event_coq(ev):
     if k == "deact":
         return "Deactivate"
     if k == "exit":
-        return "(CtxExit " + {"normal": "XNormal", "raise": "XRaise", "sraise": "XSessionRaise"}[ev[1]] + ")"
+        return "(CtxExit " + {"normal": "XNormal", "raise": "XRaise", "sraise": "XSessionRaise", "braise": "XBaseRaise"}[ev[1]] + ")"
     if k == "goc":
         return "GetOrCreate"
     if k == "imp":
@@ -163,7 +163,8 @@ def shapes(maxlen: int):
             out.append(list(prefix))
         if len(prefix) == maxlen:
             return
-        for sym in [("A", 0), ("A", 1), ("D",), ("C", 0), ("C", 1), ("X", "normal"), ("X", "raise"), ("X", "sraise")]:
+        for sym in [("A", 0), ("A", 1), ("D",), ("C", 0), ("C", 1), ("X", "normal"), ("X", "raise"), ("X", "sraise"),
+                    ("X", "braise")]:
             if sym[0] in "AC" and sym[1] == 1 and not seen1:
                 continue
             if sym[0] == "X" and depth == 0:
@@ -180,7 +181,7 @@ def random_shape(rnd, n):
     sh, depth, seen = [], 0, False
     while len(sh) < n:
         sym = rnd.choice([("A", 0), ("A", 1), ("D",), ("C", 0), ("C", 1), ("X", "normal"), ("X", "raise"), ("X", "sraise"),
-                          ("X", "raise"), ("C", 0)])
+                          ("X", "braise"), ("C", 0)])
         if sym[0] in "AC" and sym[1] == 1 and not seen:
             sym = (sym[0], 0)
         if sym[0] == "X" and depth == 0:
@@ -308,8 +309,35 @@ def corpus(engs):
         ("absent", [["act", "postgres", 2, {DIALECT_KEYS[1]: "duckdb"}], ["bconf", "key", {DIALECT_KEYS[0]: "snowflake"}],
                     ["bconf", "map", {DIALECT_KEYS[1]: "spark", DIALECT_KEYS[2]: "duckdb"}], ["goc"]]),
     ]
+    c += [
+        ("absent", [["enter", "duckdb", 1, {}], ["exit", "braise"]] + full + [["goc"]]),
+        ("healthy", [["enter", "standalone", None, allk], ["goc"], ["exit", "braise"], ["imp", "A", "pyspark.sql"], ["goc"]]),
+        ("absent", [["act", "duckdb", 1, {}], ["goc"], ["act", "postgres", 2, {}], ["goc"], ["act", "duckdb", 2, {}], ["goc"]]),
+        ("absent", [["enter", "postgres", 1, {}], ["goc"], ["exit", "normal"], ["enter", "redshift", 1, {}], ["goc"], ["exit", "normal"],
+                    ["enter", "postgres", 2, {}], ["goc"], ["exit", "normal"]]),
+    ]
     c = [(env, with_dial(evs)) for env, evs in c]
     return [(env, evs) for env, evs in c if all(ev[0] not in ("act", "enter", "loadf") or ev[1] in engs for ev in evs)]
+
+
+def conn_histories(rnd, pairs, n):
+    """engine A with connection c1 and a session, engine B and a session, engine A again with ANOTHER connection and a
+    session -- as plain activations, activate/deactivate pairs and context blocks; the current session belongs to B when A
+    comes back, so A's session is really built again and must hold the new connection"""
+    out = []
+    for i in range(n):
+        a, b = pairs[i % len(pairs)]
+        c1, c2 = rnd.choice([(1, 2), (2, 1)])
+        cb = rnd.choice([1, 2])
+        style = i % 3
+        evs = []
+        for eng, cid in ((a, c1), (b, cb), (a, c2)):
+            if style == 2:
+                evs += [["enter", eng, cid, {}], ["goc"], ["exit", rnd.choice(["normal", "raise", "braise"])]]
+            else:
+                evs += [["act", eng, cid, {}], ["goc"]] + ([["deact"]] if style == 1 else [])
+        out.append({"env": ENVS[i % 3], "events": with_dial(evs), "origin": "conn-history", "pair": [a, b]})
+    return out
 
 
 def make_scripts(ctx, info, names_tables):
@@ -318,6 +346,7 @@ def make_scripts(ctx, info, names_tables):
     pairs = [(a, b) for a in engs for b in engs if a != b]
     rnd.shuffle(pairs)
     scripts = [{"env": env, "events": evs, "origin": "corpus"} for env, evs in corpus(engs)]
+    scripts += conn_histories(rnd, pairs, 12 if ctx.tier == "quick" else 3 * len(pairs))
     exh = shapes(3 if ctx.tier == "quick" else 4)
     n_exh = len(exh)
     n_rand = 170 if ctx.tier == "quick" else 1500
@@ -390,7 +419,8 @@ def describe(ev):
         return "deactivate()"
     if k == "exit":
         return {"normal": "leave the with-block normally", "raise": "leave the with-block by an exception raised in it",
-                "sraise": "leave the with-block by the exception getOrCreate() raised"}[ev[1]]
+                "sraise": "leave the with-block by the exception getOrCreate() raised",
+                "braise": "leave the with-block by a KeyboardInterrupt (a BaseException that is not an Exception)"}[ev[1]]
     if k == "goc":
         return "from pyspark.sql import SparkSession; SparkSession.builder.getOrCreate()"
     if k == "imp":
@@ -583,7 +613,7 @@ def evaluate(ctx, keep, verdicts, proved, n_exh, n_scripts, info):
         "evaluations": n_steps, "scripts": len(keep), "distinct_nontrivial": n_nontriv,
         "rule": "evaluation = one observed step (event + what it returned + ACTIVATE_CONFIG afterwards) compared with the model "
                 "and judged by the Spec; script = core sequence over {activate a|b, deactivate, enter a|b, exit normal|raise|"
-                "session-raise} (every well-formed sequence of length <= 3 quick / <= 4 thorough, plus random ones of length 4-5 "
+                "session-raise|BaseException} (every well-formed sequence of length <= 3 quick / <= 4 thorough, plus random ones of length 4-5 "
                 "quick / 5 thorough; in the quick tier random scripts are skipped once 55 s of interpreter time are used) with "
                 "engines from all ordered pairs, connections, config and import/getOrCreate probes between the events and a full "
                 "view of the 13 documented paths at the end, each in a fresh interpreter; non-trivial = >= 2 core events and >= 1 "
